@@ -89,6 +89,16 @@ PREFIX (INCOMPLETE) MODE — section "prefix mode" at the end of this file; mode
                                  concrete runs of the code as it is (`decide +kernel`);
 * `C06_old_prefix_left_recursion_diverges_example_partial`  OLD (before /repo 73e5ffe3; NOT true of the code as it is):
                                  F32 — still running and growing after 200/400/600 steps.
+* `C04_prefix_sound_partial`     (the subject of C04 carried over, partial) every tree `parsePrefix` yields — every variant,
+                                 grammar typed for the input, prediction order, fuel — is the collapsed node of the start
+                                 symbol over children that are a prefix of an expansion of one of its rules in the
+                                 compiled table, recursively (`PreL`, `Proofs/EarleyPrefixSound.lean`: the chart invariant
+                                 of `Proofs/C04Chart.lean` re-proved with `stop` and the partial leaf), spanning all columns,
+                                 and its leaves tile the whole input (the partial leaf is the rest of the input);
+                                 `C04_prefix_chart_sound` the same at chart level for every rule table / scanner / policy.
+                                 The stronger "only the rightmost path is cut short" is FALSE of the code (witness in
+                                 the section, fix proposal /var/tmp/fixes/C04-prefix-sibling-after-unfinished); not carried
+                                 over: the collapse to the IR-level derivation relation `Matches` / `Valid`.
 Differential only for prefix mode: that the model is the code (per run: the same states in every column, incomplete and
 force-completed ones included, the same yielded trees), the partial-match regex oracle (`regex` module), the one
 documented deviation of the model (an ordinary state admitted to the last column after an incomplete state with the same
@@ -108,6 +118,7 @@ import Proofs.EarleyBound
 import Proofs.EarleyFuel
 import Model.EarleyPrefix
 import Proofs.EarleyPrefixTerm
+import Proofs.EarleyPrefixSound
 import Generated.Earley
 namespace FV.Earley
 
@@ -483,5 +494,46 @@ theorem C06_old_prefix_left_recursion_diverges_example_partial :
     ∧ (runPV G5 (Variant.old 20) pinAB 200).pm.out.length < (runPV G5 (Variant.old 20) pinAB 600).pm.out.length
     ∧ (runPV G5 Variant.now pinAB 80).isDone = true := by
   decide +kernel
+
+/-! ### soundness of prefix mode (the subject of C04, carried over; partial)
+
+FULL STATEMENT (not proved): every tree a prefix parse yields is a *prefix of a derivation* of the grammar from the start
+symbol — a valid derivation tree (`Valid`, helper symbols collapsed) of which only the rightmost path is cut short —
+whose leaves spell the whole input, the last leaf possibly a proper prefix of a terminal.  THIS IS FALSE OF THE CODE as
+stated: `<start> ::= <b> <c> | "x" <c> "z" ; <b> ::= "x" "y" ; <c> ::= "" "q"` on "x" yields `<start>(<b>("x"), <c>(""))` —
+`<b>` is cut short and yet followed by `<c>` (a state advanced over the unfinished `<b>` by a forced completion is
+advanced again by a state that starts in the last column): see the report.  What holds, and is proved for the model:
+every inner node's children are a prefix of an expansion of one of its rules (`PreL`, over the compiled table: the
+collapse to the IR-level `Matches` is not carried over), the root is the start symbol, and the leaves tile the whole
+input. -/
+
+/-- **every tree a prefix parse of the model yields** (every variant, grammar, typed input, prediction order, fuel) is
+    the node of the start symbol, collapsed, over children that are a prefix of an expansion of one of its rules in
+    the compiled table — recursively: every node's children are (`PreL`) — spanning all columns, and its leaves tile
+    the whole input: each complete leaf is what the input holds at its column, the partial leaf of an incomplete
+    terminal match is the rest of the input.  Partial: not collapsed to the IR-level derivation relation. -/
+theorem C04_prefix_sound_partial (G : Grammar) (v : Variant) (pi : PInput) (start : String)
+    (pred : Nat → NT → List (List ESym)) (R : RegexOracle)
+    (hpred : ∀ k x rhs, rhs ∈ pred k x → (x, rhs) ∈ compile G v.cap)
+    (hty : G.typed pi.inp.isBytes = true) (ho : OracleOk pi.inp R) (hc : CellsOk pi.inp)
+    (fuel : Nat) (ts : List PartialTree) (h : parsePrefix (mkPCfg G v pi start pred) fuel = some (.ok ts)) :
+    ∀ t ∈ ts, ∃ kids rhs, t = Tree.mk (.nt start) none none (collapseL kids) ∧ (NT.user start, rhs) ∈ compile G v.cap ∧
+      PreL (tableOf G v.cap start) (scanV v pi.inp) (iscanV v pi) rhs kids 0 (8 * pi.inp.cells.length) ∧
+      TilesLoose pi.inp t.leaves 0 (8 * pi.inp.cells.length) :=
+  prefix_parse_sound G v pi start pred R hpred hty ho hc fuel ts h
+
+/-- chart level, every rule table / scanner / partial-match oracle / policy: every tree the prefix-mode machine has
+    yielded after any number of steps is the start node over a `PreL` derivation spanning all columns -/
+theorem C04_prefix_chart_sound (pc : PCfg) (hs : SaneS pc.c) (hpos : 0 < pc.c.ncols) (fuel : Nat) :
+    ∀ pt, pt ∈ (runP pc fuel (PM.init pc)).mach.m.out ++ (runP pc fuel (PM.init pc)).mach.out → TopOkP pc pt :=
+  prefix_chart_sound pc hs hpos fuel
+
+/-- the hypotheses of `C04_prefix_sound_partial` are met by the left-recursive grammar of F32 on "ab" (typed, no regex,
+    text input), and the parse there does yield trees: two (the complete one and a partial one) -/
+example : G5.typed pinAB.inp.isBytes = true ∧ OracleOk pinAB.inp (fun _ _ => false) ∧ CellsOk pinAB.inp
+    ∧ (match parsePrefix (pcfgV G5 Variant.now pinAB) 80 with
+        | some (.ok ts) => ts.length
+        | _ => 0) = 2 :=
+  ⟨(by decide +kernel), (by intro id w l h; cases h), (by intro h; cases h), (by decide +kernel)⟩
 
 end FV.Earley
